@@ -1,4 +1,5 @@
 """Generators for C18: CSV tables x options, JSON values for TOON."""
+import struct
 from wire import Obj
 
 CELLS = [b"", b"a", b"abc", b"a,b", b"a;b", b"a\tb", b"a|b", b'"', b'a"b', b'""', b"'", b"a'b", b"\\", b"a\\b", b"a\\", b'\\"', b"\n", b"a\nb", b"\r", b"a\r\nb", b" a", b"a ", b"  ",
@@ -51,8 +52,10 @@ def gen_toon_value(rng, depth=3):
             return None
         if q < 0.2:
             return rng.random() < 0.5
-        if q < 0.45:
+        if q < 0.4:
             return rng.choice([0, 1, -1, 42, 10 ** 12, -7])
+        if q < 0.45:
+            return ("d", struct.unpack("<Q", struct.pack("<d", rng.choice([0.5, 0.25, -0.5, 1.5, 100.25, 0.001, -0.0625])))[0])
         return rng.choice(TOON_STRS)
     if r < 0.65:
         n = rng.choice([0, 1, 2, 3, 4])
